@@ -28,9 +28,13 @@ CONSTANTS
   LineCoords <- QuickCoords
   LineStrands = "tied"
   Blocks = {1, 1000}
+  XFlags = {FALSE}
+  Extras = {"none"}
+  Orders = {"first"}
 INVARIANT LTypeOK
 INVARIANT EveryLineOnce
 INVARIANT FilterAllIsNone
 INVARIANT FilterCommutes
 INVARIANT IdsAreUnique
+INVARIANT ExtrasAreInert
 PROPERTY LoadsAppend
